@@ -6,16 +6,16 @@ ids = [json.loads(l)["id"] for l in open(os.path.join(ROOT, "properties.jsonl"))
 
 # id -> (engine, technique, level category, level text, level note, design ref)
 T = {
- "C01": ("E1 graphs", "exhaustive enumeration of all finite models with <=3 nodes (4 with few edges) executed on the real bfs/dfs/on-demand checkers, compared with a reachability oracle",
+ "C01": ("E1 graphs", "exhaustive enumeration of all finite models with <=3 nodes (4 with few edges) plus a fixed family of 64 structured graphs with 5-8 nodes, executed on the real bfs/dfs/on-demand checkers (block sizes 1500/1/2/3), compared with a reachability oracle",
          "model_checking", "Every transition graph within the bound (self-loops, joins, cycles, ignored actions, several init states, every boundary mask) is run through the real checkers; the visitor's paths, the evaluated multiset, unique_state_count/state_count/is_done are compared with the closure computed by a 20-line oracle. Small-scope exhaustive: the right level for a universally quantified statement over models.",
          "oracle (reachability closure) and GraphModel adapter are trusted; thread counts >1 in this check are free-running (schedule quantifier is C05's)", "DESIGN §4 C01"),
  "C02": ("E1 graphs", "exhaustive enumeration of models x all always/sometimes labellings x strategies (incl. symmetry) on the real checkers vs. reachability oracle",
-         "model_checking", "All mask pairs (always m1, sometimes m2) over all graphs within the bound; discovery <=> oracle existence, assert_properties outcome and is_done are checked on every run.",
+         "model_checking", "All mask pairs (always m1, sometimes m2) over all graphs within the bound; discovery <=> oracle existence, assert_properties / assert_any_discovery / assert_no_discovery / discovery() outcomes and is_done are checked on every run; the structured 5-8 node graphs add deeper paths and wider frontiers.",
          "oracle and adapter trusted; symmetry runs only on models invariant under the node swap used by the representative function", "DESIGN §4 C02"),
  "C03": ("E1 graphs", "exhaustive enumeration of models x property sets x five strategies x finish conditions/limits; every reported path re-walked on the graph",
          "model_checking", "Every (name, path) returned by discoveries() on every run is validated: real in-boundary execution from an init state; last state violates/satisfies; eventually: no state satisfies and the path is a dead end or (simulation) closes a cycle.",
          "simulation covered for seeds/scripts within the bound; multi-threaded runs here are free-running samples, the schedule quantifier is exercised by E2", "DESIGN §4 C03"),
- "C04": ("E4 identity", "exhaustive enumeration of all small values of every hashable type and of all constructed/reachable actor-system states; all pairs decided by grouping on a recording hasher's stream, the real fingerprint and component-wise identity",
+ "C04": ("E4 identity", "exhaustive enumeration of all small values of every hashable type (alone and side by side), of both consistency testers after every well-formed history within a bound, and of all constructed/reachable actor-system states; all pairs decided by grouping on a recording hasher's stream, the real fingerprint and component-wise identity",
          "model_checking", "Every unordered pair within each family is decided: equal component-wise identity => same hasher stream and fingerprint however built; different identity => different stream and fingerprint; == agrees with component-wise identity. End-to-end: bfs unique_state_count equals the number of component-wise distinct reachable states for every zoo system.",
          "identical recorded write sequences collide under every hasher (sound); differing sequences are additionally compared on the real 64-bit fingerprint (accidental collisions are ~1e-12 likely at these sizes)", "DESIGN §4 C04"),
  "C05": ("E2 sched", "stateless exploration of all schedules (preemption-bounded, replay-from-prefix DFS) of the real worker threads and of the real job market under a cooperative scheduler installed through the cfg-gated hooks",
@@ -39,30 +39,30 @@ T = {
  "C15": ("C15 adapters", "exhaustive enumeration of adapter placement x event kind x handler output vs a direct call of the wrapped actor; state-graph isomorphism of wrapped vs bare scripted systems; all Vec-client scripts x incoming sequences",
          "model_checking", "Every start/message/timeout/random event reaches the wrapped actor once with the same arguments; commands and state changes come back unchanged; wrapped systems have the same reachable graph as bare ones.",
          "graphs compared through canonical keys after unwrapping states/messages", "DESIGN §4 C15"),
- "C16": ("C16 link", "explicit-state search of every reachable state of link-wrapped systems over lossy duplicating/reordering networks within a network-size boundary, invariants evaluated in every state",
-         "model_checking", "In every reachable state the handed-over sequence is a prefix of the sent one, nothing is acknowledged (no longer retransmitted) before it was handed over, and all-acknowledged implies equality.",
+ "C16": ("C16 link", "explicit-state search of every reachable state of link-wrapped systems (stateful, echoing and stateless receivers) over lossy duplicating/reordering networks within a network-size boundary; invariants evaluated in every state, progress decided by backward reachability on the explored graph",
+         "model_checking", "In every reachable state the handed-over sequence is a prefix of the sent one, nothing is acknowledged (no longer retransmitted) before it was handed over, all-acknowledged implies equality, and (backward reachability over the explored graph) a state in which every flow is handed over completely remains reachable.",
          "states de-duplicated on the subject's own Hash/Eq (validated separately by C04); pending acknowledgements observed through what the link would retransmit; wrapped state through hook H5", "DESIGN §4 C16"),
  "C17": ("E6 vnet", "exhaustive enumeration of environment answer sequences (to a depth; beyond it deviation-bounded) for the real spawn() event loop running on real threads over a virtual socket and clock; arithmetic sweep of the Id <-> address conversion",
          "model_checking", "For every answer sequence within the bounds: on_start first and once; every on_msg corresponds to a delivered decodable IPv4 datagram with the right Id and message; every Send is one datagram to the encoded address, in order; a timer fires only while armed and not before the lower bound of its latest arming; every handler sees the previous state. Id<->address: 2^24 (thorough 2^32) addresses x 4 ports, 2^16 ports x 16 addresses, per-byte sweep.",
-         "the actor threads run freely but only ever block in recv_from, which the controller answers at quiescence; the virtual clock ticks 1 ns per read; on_random is outside the statement; the 2^48 product space is covered per dimension, not jointly", "DESIGN §4 C17"),
+         "the actor threads run freely but only ever block in recv_from, which the controller answers at quiescence; one virtual clock per actor, 1 ns per read; datagrams arrive at once, after half the armed wait, or in a 65507-byte encoding; on_random is outside the statement; the 2^48 product space is covered per dimension, not jointly", "DESIGN §4 C17"),
  "C18": ("E5 histories + C18 harness", "exhaustive enumeration of operation sequences/candidate returns on the three sequential specifications; explicit-state search over (system state, shadow history) pairs of register-harness systems built from scripted servers",
          "model_checking", "is_valid_step == (invoke == ret) with equal resulting object when accepted; is_valid_history accepts exactly the invoked sequences; in every reachable state of every harness system the recorded history equals the history rebuilt from the client-visible calls and replies, every shadow call is well-formed, request ids are fresh and at most one operation is outstanding per client.",
          "after a rejected step only the boolean is compared (the object is dead in every use the library makes of it); servers answer each request at most once with the request's id", "DESIGN §4 C18"),
  "C19": ("C19 explorer", "exhaustive enumeration of action sequences (Path API), of request sequences to a live on-demand checker, and of fingerprint paths plus one-token corruptions against a live serve() over loopback HTTP",
-         "model_checking", "from_actions is Some exactly for executions and its accessors/encode agree with an independent walk; each check-fingerprint request evaluates exactly the requested pending state and run-to-completion finishes like BFS; GET /.states returns exactly the model's actions/successors/fingerprints for every execution and 404 for every corrupted path; /.status reports exact counts and paths that decode to genuine witnesses.",
+         "model_checking", "from_actions is Some exactly for executions and its accessors/encode agree with an independent walk; the same execution rebuilt from its fingerprints (hook H7) visits the same states through genuine actions; each check-fingerprint request evaluates exactly the requested pending state and run-to-completion finishes like BFS; GET /.states returns exactly the model's actions/successors/fingerprints for every execution and 404 for every corrupted path; /.status reports exact counts and paths that decode to genuine witnesses.",
          "HTTP is spoken over the sandbox's loopback interface; requests are synchronised with the on-demand acknowledgement counter (hook), not with sleeps; ui/app.js (browser side) is not exercised", "DESIGN §4 C19"),
  "C20": ("C20 laws", "exhaustive enumeration of all small vector clocks (pairs, triples) and dense maps (construction orders, inserts, plans)",
          "model_checking", "Partial-order laws, equality up to trailing zeros, hash consistency, merge_max = least upper bound within the domain, increment strictly greater; dense maps order-independent, gap/duplicate rejection, insert semantics, rewrite moves values to rewritten keys.",
          "least-upper-bound minimality is checked against all upper bounds inside the enumerated domain", "DESIGN §4 C20"),
- "C09": ("E3 actorstep", "exhaustive enumeration of crash points: every constructed state x budget; differential crashed-vs-up step comparison; monitor over all reachable states; real bfs/dfs visited set vs independent exploration",
+ "C09": ("E3 actorstep", "exhaustive enumeration of crash points: every constructed state x budget; differential crashed-vs-up step comparison; monitor over all reachable states; real bfs/dfs visited set vs independent exploration; identical peers with a crash budget under dfs + symmetry vs the plain search (class coverage)",
          "fault_enumeration", "Crash offered exactly when allowed; crash step clears timers/choices only; all other actions behave as before; nothing is ever enabled for a crashed actor on any reachable state; every crashed-vector within the budget is reached and the real checkers evaluate every such state.",
          "reference interpreter and xplore (canonical keys from public fields) trusted", "DESIGN §4 C09"),
  "C11": ("E1 graphs", "exhaustive enumeration of models x eventually masks x strategies vs. maximal-avoiding-path oracle; exactness on oracle-detected forests",
          "model_checking", "No false alarm on any model within the bound; exact on every forest-shaped model within the bound.",
          "oracle (search for a dead end or cycle in the not-P subgraph; path-count forest test) trusted", "DESIGN §4 C11"),
  "C12": ("E1 graphs + truth table + E2 sched", "full truth table of HasDiscoveries; exhaustive enumeration of models x finish variants x target counts x depth limits x strategies; seeds x choosers replayed twice; timeouts: schedule exploration with a virtual clock",
-         "model_checking", "Every variant/discovered-subset/property-kind combination; early stop only when the condition holds; state_count >= min(target,total); no path deeper than the limit and BFS complete below it; same first simulation trace per seed.",
-         "timeouts are decided under the controlled scheduler with a virtual clock (unexpired: time may only advance when no thread can run; expiring: the timer fires after k worker decisions for a list of k); real-time behaviour is not measured", "DESIGN §4 C12"),
+         "model_checking", "Every variant/discovered-subset/property-kind combination; early stop only when the condition holds; state_count >= min(target,total); no path deeper than the limit and BFS complete below it; max_depth() consistent with the visited paths; same first simulation trace per seed.",
+         "timeouts are decided under the controlled scheduler with a virtual clock (unexpired: time may only advance when no thread can run; expiring: the timer fires after k worker decisions for a list of k, the workers running under the default and under a round-robin policy before that); real-time behaviour is not measured", "DESIGN §4 C12"),
  "C13": ("E1 graphs", "exhaustive enumeration of models x labellings on single-threaded spawn_bfs vs. BFS-distance oracle",
          "model_checking", "Visitor order non-decreasing in depth, each state evaluated at its true distance, every always/sometimes witness has the minimum number of transitions.",
          "oracle distances trusted", "DESIGN §4 C13"),
